@@ -123,7 +123,12 @@ def gen_programs(ctx, n, salt):
 
 def all_cases(ctx):
     cases = corpus_cases("c09") + corpus_cases("c11") + corpus_cases("c12")
-    cases += [("repo:" + rel, c) for rel, c in rg.repo_cases(std=True)]
+    repo = [("repo:" + rel, c) for rel, c in rg.repo_cases(std=True)]
+    if ctx.tier == "quick":
+        # every third repository program in the quick tier (std bundled: the model resolves the whole library each
+        # time, which dominates the run time); all of them in the thorough tier
+        repo = [x for i, x in enumerate(repo) if i % 3 == ctx.seed % 3]
+    cases += repo
     cases += gen_programs(ctx, 150 if ctx.tier == "quick" else 3000, "c09-tie")
     return cases
 
